@@ -65,24 +65,27 @@ class Recorder(ra.ResourcesAdapter):
 
 
 class Shadow:
-    """The real tables in model ids (generator preconditions only)."""
+    """The real tables in model ids (generator preconditions only): mp[m] name -> sub-map, ly[m] layers name -> handle."""
 
-    def __init__(self, ad):
+    def __init__(self, order, mp, ly, layered=True):
+        self.order, self.mp, self.ly, self.layered = order, mp, ly, layered
+        self.held = {c for x in mp.values() for c in x.values()} | {h for ls in ly.values() for l in ls for h in l.values()}
+
+    @classmethod
+    def read(cls, ad):
         env = ad.env
         ids = ad._ids()
         ab = env.abstract
-        self.order = env.order
-        self.layered = True
-        self.mp, self.ly = {}, {}
+        layered = True
+        mp, ly = {}, {}
         for mid, m in env.maps.items():
-            self.mp[mid] = {ab[k]: ids[id(c)] for k, c in m.maps.items() if k in ab and id(c) in ids}
+            mp[mid] = {ab[k]: ids[id(c)] for k, c in m.maps.items() if k in ab and id(c) in ids}
             try:
                 ls = list(m.handles.maps)
             except Exception:       # layers not readable: no PushLayer is generated, one layer is assumed
-                ls, self.layered = [dict(m.handles.items())], False
-            self.ly[mid] = tuple({ab[k]: ids[id(h)] for k, h in l.items() if k in ab and id(h) in ids} for l in ls)
-        self.held = {c for x in self.mp.values() for c in x.values()} | \
-                    {h for ls in self.ly.values() for l in ls for h in l.values()}
+                ls, layered = [dict(m.handles.items())], False
+            ly[mid] = tuple({ab[k]: ids[id(h)] for k, h in l.items() if k in ab and id(h) in ids} for l in ls)
+        return cls(env.order, mp, ly, layered)
 
     def vis(self, m):
         d = {}
@@ -267,7 +270,7 @@ def record(desper, K, seed, n_traces, n_calls):
         cls = K['ClsSeq'][ci]
         ad.reset({'maps': {m: () for m in order}, 'kind': K['KindSeq'][ki], 'cls': cls})
         ident = [n for n in NAMES if cls[n] in IDENT]
-        sh = Shadow(ad)
+        sh = Shadow.read(ad)
         stale = set()
         cached = {h: False for h in hd}
         events = []
@@ -287,7 +290,7 @@ def record(desper, K, seed, n_traces, n_calls):
             obs = ad.step(op, args, sh.pre())
             events.append(event(op, args, obs))
             # shadow state from the real objects (for the generator's preconditions only)
-            sh = Shadow(ad)
+            sh = Shadow.read(ad)
             cached = {h: bool(c) for h, c in obs['cached'].items()}
             if op == 'SetItem':
                 stale = {t for t in stale | {(x, n, args[2]) for x, n in places} if sh.place_in(t)}
